@@ -453,6 +453,45 @@ async def run_worker_case(loop: vclock.VLoop, case: dict, *, settled: Callable[[
         trace.enqueued[j["id"]] = await job.enqueue()
 
     producers = [asyncio.ensure_future(produce(j)) for j in case["jobs"]]
+
+    async def inspect(spec: dict) -> None:
+        """Somebody looks into a category of a queue while the worker runs (an operator's tool iterating Queue.get_messages): takes up
+        to n messages, holds them for a moment and hands them back - by reject() or by just closing the iteration.  That changes
+        nothing about what the worker owes the messages."""
+        from repid import MessageCategory
+
+        # (connected from the start: on Redis every connect() runs maintenance, which takes messages away from live consumers once
+        #  their execution timeout has passed - known finding D24, not what an inspection is about)
+        iconn = env.connection("i0", None, buckets=False)  # (no spy: not a disposition of the worker)
+        await iconn.connect()
+        await asyncio.sleep(max(0.0, spec["at"] - loop.time()))
+        # (the consumer API underneath Queue.get_messages(): a consume() that finds nothing is given up by cancelling it, which
+        #  leaves the consumer - and what it already handed out - as they are; closing a get_messages() iteration from outside would
+        #  already hand everything back)
+        b_ = iconn.message_broker
+        cons = b_.get_consumer(spec["queue"], None, None, MessageCategory[spec.get("category", "DELAYED")])
+        await cons.start()
+        taken = []
+        try:
+            for _ in range(spec.get("n", 1)):
+                try:
+                    key, _payload, _params = await asyncio.wait_for(cons.consume(), timeout=0.3)
+                except asyncio.TimeoutError:
+                    break
+                taken.append(key)
+                trace.extra.setdefault("inspected", []).append((key.id_, loop.time()))
+            if taken:
+                await asyncio.sleep(spec.get("hold", 0.1))
+            if spec.get("how", "reject") == "reject":
+                for k_ in taken:
+                    await b_.reject(k_)
+        finally:
+            await cons.finish()  # ("close": whatever is still held goes back the way an abandoned iteration returns it)
+            for k_ in taken:
+                trace.extra.setdefault("released", {})[k_.id_] = loop.time()
+        trace.extra.setdefault("inspections_done", []).append(loop.time())
+
+    producers += [asyncio.ensure_future(inspect(sp)) for sp in case.get("inspect", [])]
     # jobs with enqueue_at <= worker start are enqueued before the worker starts
     w = case.get("worker", {})
     start_at = w.get("start_at", 0.0)
